@@ -116,6 +116,8 @@ func scenarios(tier string) []scen {
 		{Name: "same asset under two parents", Seeds: []string{H + "/p"}, Nodes: []world.Node{page(H+"/p", H+"/l1.m3u8", H+"/l2.m3u8"), pl(H+"/l1.m3u8", "s.ts"), pl(H+"/l2.m3u8", "s.ts", "t.ts"), bin(H + "/s.ts"), bin(H + "/t.ts")}},
 		{Name: "two spellings of one asset", Seeds: []string{H + "/p"}, Nodes: []world.Node{page(H+"/p", H+"/a.png", "HTTP://S.EXAMPLE/a.png", H+"/a.png#x"), bin(H + "/a.png")}},
 		{Name: "redirect target equals a sibling asset", Seeds: []string{H + "/p"}, Nodes: []world.Node{page(H+"/p", H+"/r", H+"/a.png"), {URL: H + "/r", Kind: "redirect", Location: H + "/a.png"}, bin(H + "/a.png")}},
+		{Name: "redirect target equals a sibling playlist whose only entry is excluded", Seeds: []string{H + "/p"}, Nodes: []world.Node{page(H+"/p", H+"/r", H+"/l.m3u8"),
+			{URL: H + "/r", Kind: "redirect", Location: H + "/l.m3u8"}, pl(H+"/l.m3u8", "http://excluded.example/x.ts")}},
 		{Name: "two seeds sharing two assets", Seeds: []string{H + "/p1", H + "/p2"}, Nodes: []world.Node{page(H+"/p1", H+"/a.png", H+"/b.png"), page(H+"/p2", H+"/b.png", H+"/a.png"), bin(H + "/a.png"), bin(H + "/b.png")}},
 		{Name: "seed URL also an asset of another seed", Seeds: []string{H + "/p1", H + "/p2"}, Nodes: []world.Node{page(H+"/p1", H+"/p2", H+"/a.png"), page(H+"/p2", H+"/a.png"), bin(H + "/a.png")}},
 	}
@@ -129,7 +131,7 @@ func scenarios(tier string) []scen {
 			if ca[0] == 2 && len(d.Seeds) < 2 {
 				continue
 			}
-			out = append(out, scen{Def: d, Opt: world.Options{Workers: ca[0], MaxConcurrentAssets: ca[1], MaxRetry: 0, MaxRedirect: 2}, P: P})
+			out = append(out, scen{Def: d, Opt: world.Options{Workers: ca[0], MaxConcurrentAssets: ca[1], MaxRetry: 0, MaxRedirect: 2, ExcludeHosts: []string{"excluded.example"}}, P: P})
 		}
 		// writer options that have nothing to do with URL de-duplication must not change it
 		out = append(out, scen{Def: d, Opt: world.Options{Workers: 1, MaxConcurrentAssets: 1, MaxRetry: 0, MaxRedirect: 2, DisableLocalDedupe: true}, P: P})
